@@ -331,7 +331,8 @@ CLAIM = {
             "comparison constants, must dominate the assignment) and provenance rule on every barrier initialisation in the operators. "
             "These make the configuration space finite and ≥ 1 and tie every barrier to the actual partition count for all plans; equality "
             "of results across configurations is a value statement and is not decided. Plus a must-write rule for the LIMIT/OFFSET budget that all "
-            "partitions share (every path that skips or emits rows updates it), the one operator whose output depends on a cross-partition counter. Plus the index-space rule of the run-merge comparators (shared with C08-IDXSPACE): merging only happens with several runs, so a key/heap index mix-up there changes results only for some partition counts / batch sizes. And the chunked-append cursor pairing (shared with C14-CURSOR): appends span several chunks only for some batch sizes.",
+            "partitions share (every path that skips or emits rows updates it), the one operator whose output depends on a cross-partition counter. Plus the index-space rule of the run-merge comparators (shared with C08-IDXSPACE): merging only happens with several runs, so a key/heap index mix-up there changes results only for some partition counts / batch sizes. And the chunked-append cursor pairing (shared with C14-CURSOR): appends span several chunks only for some batch sizes."
+            " Plus SCANCAP: the collection scan returns at most the output batch's write capacity per call (found by a hunting agent, repaired).",
     "note": "trusted: rustc MIR; barrier API list in rules/c03.py (DelayedPartitionCount::set, PartitionWakers::init_for_partitions, waker Vec::resize, remaining_inputs)",
     "technique": "static analysis: MIR dominance with constant-interval derivation + provenance (rustc_private driver)",
 }
